@@ -154,5 +154,44 @@ def rule_g4(repo):
     return res
 
 
+def rule_g5(repo):
+    """closure.explain(s, t) records no path for s == t (nothing to explain).  Every use of
+    get_proofterm(u, v) must therefore be guarded by u != v, or get_proofterm must answer the reflexive case
+    itself; otherwise explaining t = t, which test() reports as equal, raises KeyError."""
+    res = RuleResult('C17.G5', 'the explanation of an equality between identical constants is the reflexive theorem, at every place an explanation is requested', floor=2)
+    e = repo.func(CONGC, 'CongClosureHOL.explain')
+    gp = need(e.nested.get('get_proofterm'), 'CongClosureHOL.explain: nested get_proofterm not found')
+    u, v = gp.params()[:2]
+    cfg = cfg_of(gp.node)
+    # does get_proofterm handle u == v before it reads the table of paths?
+    reads = [n for n in cfg.nodes if n.kind == 'stmt' and any(isinstance(x, ast.Subscript) and is_name(x.value, 'explain') for x in ast.walk(n.ast))]
+
+    def differ(ex, pol):
+        cp = compare_parts(ex)
+        if not cp or {src(cp[1]), src(cp[2])} != {u, v}:
+            return False
+        return (cp[0] is ast.NotEq and pol) or (cp[0] is ast.Eq and not pol)
+    edges = cfg.establishing_edges(differ)
+    self_guarded = bool(reads) and bool(edges) and all(cfg.path_avoiding(r, skip_edges=edges) is None for r in reads)
+    parent = {}
+    for n in ast.walk(e.node):
+        for ch in ast.iter_child_nodes(n):
+            parent[id(ch)] = n
+    for c in ast.walk(e.node):
+        if not (isinstance(c, ast.Call) and is_name(c.func, 'get_proofterm') and len(c.args) == 2):
+            continue
+        a, b = src(c.args[0]), src(c.args[1])
+        guarded = self_guarded
+        p = parent.get(id(c))
+        if isinstance(p, ast.IfExp) and p.body is c:
+            cp = compare_parts(p.test)
+            guarded = guarded or bool(cp and cp[0] is ast.NotEq and {src(cp[1]), src(cp[2])} == {a, b})
+        res.add('%s :: CongClosureHOL.explain :: request(get_proofterm(%s, %s))' % (CONGC, a, b), guarded,
+                'guarded by %s != %s (or handled inside)' % (a, b) if guarded else
+                'get_proofterm(%s, %s) is called without excluding %s == %s, for which closure.explain records no path: explain(t, t) raises '
+                'KeyError although test(t, t) is True' % (a, b, a, b), '%s:%d' % (CONGC, c.lineno))
+    return res
+
+
 def rules(repo):
-    return [rule_g1(repo), rule_g2(repo), rule_g3(repo), rule_g4(repo)]
+    return [rule_g1(repo), rule_g2(repo), rule_g3(repo), rule_g4(repo), rule_g5(repo)]
